@@ -131,38 +131,7 @@ func checkC12(c *Ctx) {
 		c.decide("PASS-new-nodes-saved", "saveNewNodes saves every queued node", l.pos(snn.Pos()), found && ok, "every iteration of the save loop calls SaveNode", "the save loop can skip a queued node")
 	}
 	// (2)
-	dv := l.Func("", "*nodeDB.deleteVersion")
-	dfp := l.Func("", "*nodeDB.deleteFromPruning")
-	if dv == nil || dfp == nil || len(dv.AnonFuncs) == 0 {
-		c.anchorMissing("PASS-orphans-deleted", "deleteVersion callback / deleteFromPruning")
-	} else {
-		// a deletion of the orphan's OWN storage key (built from its node key), as opposed to the
-		// additional clean-up of a legacy-root alias (built from its hash)
-		ownKey := func(in ssa.Instruction) bool {
-			if !callTo(dfp)(in) {
-				return false
-			}
-			return strings.Contains(roleOf(l, callCommon(in).Args[1], "", 0), "GetKey(")
-		}
-		for _, cb := range dv.AnonFuncs {
-			q := mustState(cb, false, ownKey, nil)
-			ok := true
-			for _, r := range returnsOf(cb) {
-				v := stripTrivial(retVal(r, 0))
-				// `return ndb.deleteFromPruning(own key)` passes it by construction
-				if call, isCall := v.(*ssa.Call); isCall && ownKey(call) {
-					continue
-				}
-				if errNilness(v, r.Block(), 0) > 0 {
-					continue
-				}
-				if !q(r) {
-					ok = false
-				}
-			}
-			c.decide("PASS-orphans-deleted", l.fname(cb)+" deletes every orphan", l.pos(cb.Pos()), ok, "every non-error return passes a deletion of the orphan's own key", "the orphan callback can return success without deleting the orphan's own key (e.g. after only the legacy alias was removed): unreachable nodes accumulate")
-		}
-	}
+	checkOrphansDeleted(c, "PASS-orphans-deleted")
 	// (3)
 	checkRollbackRange(c)
 	// (4)
@@ -217,6 +186,51 @@ func checkRollbackRange(c *Ctx) {
 		}
 		if n == 0 {
 			c.anchorMissing("FLOW-rollback-range", "no range delete over the node key-space")
+		}
+	}
+}
+
+// checkOrphansDeleted (shared by C12 and C05): the orphan callback of
+// deleteVersion deletes the own storage key of every orphan it is handed —
+// the pruned version's root included, which the pre-order walk hands over
+// first, so that a prune interrupted between two physical writes has already
+// taken the version out of the version search.
+func checkOrphansDeleted(c *Ctx, rule string) {
+	l := c.L
+	callTo := func(fs ...*ssa.Function) func(ssa.Instruction) bool {
+		p := predStatic(fs...)
+		return func(in ssa.Instruction) bool { cc := callCommon(in); return cc != nil && p(cc) }
+	}
+	dv := l.Func("", "*nodeDB.deleteVersion")
+	dfp := l.Func("", "*nodeDB.deleteFromPruning")
+	if dv == nil || dfp == nil || len(dv.AnonFuncs) == 0 {
+		c.anchorMissing(rule, "deleteVersion callback / deleteFromPruning")
+	} else {
+		// a deletion of the orphan's OWN storage key (built from its node key), as opposed to the
+		// additional clean-up of a legacy-root alias (built from its hash)
+		ownKey := func(in ssa.Instruction) bool {
+			if !callTo(dfp)(in) {
+				return false
+			}
+			return strings.Contains(roleOf(l, callCommon(in).Args[1], "", 0), "GetKey(")
+		}
+		for _, cb := range dv.AnonFuncs {
+			q := mustState(cb, false, ownKey, nil)
+			ok := true
+			for _, r := range returnsOf(cb) {
+				v := stripTrivial(retVal(r, 0))
+				// `return ndb.deleteFromPruning(own key)` passes it by construction
+				if call, isCall := v.(*ssa.Call); isCall && ownKey(call) {
+					continue
+				}
+				if errNilness(v, r.Block(), 0) > 0 {
+					continue
+				}
+				if !q(r) {
+					ok = false
+				}
+			}
+			c.decide(rule, l.fname(cb)+" deletes every orphan", l.pos(cb.Pos()), ok, "every non-error return passes a deletion of the orphan's own key", "the orphan callback can return success without deleting the orphan's own key (e.g. after only the legacy alias was removed): unreachable nodes accumulate")
 		}
 	}
 }
